@@ -207,12 +207,12 @@ func evalPath(node *jparse.PathNode, data reflect.Value, env *environment) (refl
 	// applied to each member of an array context.
 	isVar := isAbsoluteStep(node.Steps[0], true)
 
+	// (Without a context item the first step is evaluated
+	// once, without one: see evalPathStep.)
 	output := data
-	if isVar || !jtypes.IsArray(data) {
+	if data.IsValid() && (isVar || !jtypes.IsArray(data)) {
 		output = reflect.MakeSlice(typeInterfaceSlice, 1, 1)
-		if data.IsValid() {
-			output.Index(0).Set(data)
-		}
+		output.Index(0).Set(data)
 	}
 
 	var err error
@@ -276,7 +276,15 @@ func evalPathStep(step jparse.Node, data reflect.Value, env *environment, lastSt
 	var err error
 	var results []reflect.Value
 
-	if seq, ok := asSequence(data); ok {
+	if !data.IsValid() {
+		// There is no context item (a value that stood for
+		// it would be taken for a context item by the step).
+		var res reflect.Value
+		res, err = evalStep(step, undefined, env)
+		if res.IsValid() {
+			results = []reflect.Value{res}
+		}
+	} else if seq, ok := asSequence(data); ok {
 		results, err = evalOverSequence(step, seq, env)
 	} else {
 		results, err = evalOverArray(step, data, env)
